@@ -16,7 +16,7 @@ from sim import kernel, ops
 ID = 'C15'
 BATCH = True      # many runs per forked child, state restored in place between runs (sim/state.py)
 RULE = ('seeded generation of 2-4 threads x 1-4 public-API operations (BeartypeConf, TypeHint, is_bearable, '
-        'die_if_unbearable, @beartype + call, is_subhint, infer_hint, claw registrations/queries, beartyping blocks) '
+        'die_if_unbearable, @beartype + call, is_subhint, infer_hint, TypeHint wrapper use (children, comparisons, checks), claw registrations/queries, beartyping blocks) '
         'over shared-cold, shared-warm and private hints, a 0-3 operation sequential prelude, and a seeded schedule '
         '(uniform / hot-region / PCT) deciding every line-level switch inside beartype; a run is non-trivial when at '
         'least one pre-emption actually happened, distinct = distinct (task,file,line) event digests')
@@ -34,9 +34,9 @@ ASSUMPTIONS = [
     'frames outside beartype (stdlib, user callbacks) are atomic unless they call back into beartype',
     'no pre-emption while the global import lock is held or while the running task is inside an import',
 ]
-PROBES = ['preempted_runs', 'lock_contended', 'cold_shared_hint', 'conf_race', 'typehint_race', 'claw_ops', 'warn_mode_ops']
+PROBES = ['preempted_runs', 'lock_contended', 'cold_shared_hint', 'conf_race', 'typehint_race', 'typehint_use_ops', 'claw_ops', 'warn_mode_ops']
 
-HOT = ['utilcachepool', 'utilmapunbounded', 'confmain', 'clawpkg', 'utilcachecall', 'doormeta',
+HOT = ['utilcachepool', 'utilmapunbounded', 'confmain', 'clawpkg', 'utilcachecall', 'doormeta', 'doorsuper',
        '_clawimpfileloader', 'checkmake', 'utilerrwarn', 'decorcache', 'clawstate', 'utilmaplru', 'utilcacheobjattr']
 
 
@@ -83,8 +83,13 @@ def gen_op(rng, shared, claw_ok=True):
     r = rng.random()
     if r < 0.14:
         return {'op': 'conf', 'kw': rng.choice([c for c in CONF_POOL if c is not None])}
-    if r < 0.26:
+    if r < 0.20:
         return {'op': 'typehint', 'h': _gen_hint_obj(rng, shared)[0]}
+    if r < 0.26:
+        # use of a (shared) TypeHint wrapper: its lazily computed members (children, comparisons, checks)
+        h, o = _gen_hint_obj(rng, shared)
+        return {'op': 'th_use', 'h': h, 'x': o, 'b': _gen_hint_obj(rng, shared)[0],
+                'mode': rng.choice(['children', 'cmp', 'bearable', 'die', 'repr_hash'])}
     if r < 0.46:
         h, o = _gen_hint_obj(rng, shared)
         return {'op': 'is_bearable', 'h': h, 'x': o, 'conf': rng.choice(CONF_POOL)}
@@ -211,6 +216,27 @@ def _run_op(op, ctx):
             th = door.TypeHint(hint)
             ctx['typehints'].append((hint, th))
             out = ['ok', type(th).__name__]
+        elif k == 'th_use':
+            hint = H.build_hint(op['h'])
+            th = door.TypeHint(hint)
+            ctx['typehints'].append((hint, th))
+            m = op['mode']
+            if m == 'children':
+                kids = list(th)
+                again = list(door.TypeHint(hint))
+                for c in kids:
+                    ctx['typehints'].append((c.hint, c))
+                out = ['ok', [len(th), [type(c).__name__ for c in kids], len(kids) == len(again) and all(a is b for a, b in zip(kids, again))]]
+            elif m == 'cmp':
+                other = door.TypeHint(H.build_hint(op['b']))
+                out = ['ok', [th == other, other == th, th <= other, other <= th, th < other, th.is_subhint(other), other.is_superhint(th)]]
+            elif m == 'bearable':
+                out = ['ok', th.is_bearable(H.build_obj(op['x']))]
+            elif m == 'die':
+                th.die_if_unbearable(H.build_obj(op['x']))
+                out = ['ok', None]
+            else:
+                out = ['ok', [hash(th) == hash(door.TypeHint(hint)), th.is_ignorable, bool(th)]]
         elif k == 'is_bearable':
             out = ['ok', door.is_bearable(H.build_obj(op['x']), H.build_hint(op['h']), conf=ops.build_conf(op['conf']))]
         elif k == 'die':
@@ -520,7 +546,8 @@ def execute(case):
         'lock_contended': s.stats['lock_contended'],
         'cold_shared_hint': 1 if _has_shared_cold(case) else 0,
         'conf_race': 1 if sum(1 for t in case['threads'] if any(o['op'] == 'conf' for o in t)) > 1 else 0,
-        'typehint_race': 1 if sum(1 for t in case['threads'] if any(o['op'] == 'typehint' for o in t)) > 1 else 0,
+        'typehint_race': 1 if sum(1 for t in case['threads'] if any(o['op'] in ('typehint', 'th_use') for o in t)) > 1 else 0,
+        'typehint_use_ops': sum(1 for t in case['threads'] for o in t if o['op'] == 'th_use'),
         'claw_ops': sum(1 for t in case['threads'] for o in t if o['op'].startswith('claw') or o['op'].startswith('bt_')),
         'warn_mode_ops': sum(1 for t in case['threads'] for o in t if ops.conf_is_warn(o.get('conf'))),
         'cw_overlaps': len(cw_overlaps),
